@@ -321,6 +321,48 @@ func runC15(c *ctx) {
 				c.violation(idx, cl, fmt.Sprintf("parts %s: sequential read = %v (err %v), schema denotes %v", describeParts(ps), all, err, want), nil)
 			}
 		}
+		// the same part list encoded by the package's own builder (what pk-put writes for a file whose parts it re-uses):
+		// it must decode to the same parts and read back as the same bytes
+		{
+			var bps []schema.BytesPart
+			for _, m := range storeParts(sto, ps) {
+				bp := schema.BytesPart{Size: uint64(m["size"].(int))}
+				if o, ok := m["offset"].(int); ok {
+					bp.Offset = uint64(o)
+				}
+				if r, ok := m["blobRef"].(string); ok {
+					bp.BlobRef = blob.MustParse(r)
+				}
+				if r, ok := m["bytesRef"].(string); ok {
+					bp.BytesRef = blob.MustParse(r)
+				}
+				bps = append(bps, bp)
+			}
+			hole := false
+			for _, bp := range bps {
+				hole = hole || (!bp.BlobRef.Valid() && !bp.BytesRef.Valid())
+			}
+			fm := schema.NewFileMap("f")
+			c.rep.SpecChecks++
+			if hole {
+				// the builder does not write holes (it reports an error): nothing to compare
+				c.count("reader_trees", "top-level hole: not encodable by the builder")
+			} else if err := fm.PopulateParts(int64(total), bps); err != nil {
+				c.violation(idx, "c15-encode-parts", fmt.Sprintf("parts %s: PopulateParts refuses a consistent part list: %v", describeParts(ps), err), nil)
+			} else if js2, err := fm.JSON(); err == nil {
+				ref2 := blob.RefFromString(js2)
+				blobserver.Receive(ctxb, sto, ref2, strings.NewReader(js2))
+				fr2, err := schema.NewFileReader(ctxb, sto, ref2)
+				var all []byte
+				if err == nil {
+					all, err = io.ReadAll(io.NewSectionReader(fr2, 0, fr2.Size()))
+				}
+				if err != nil || !bytes.Equal(all, want) {
+					c.violation(idx, "c15-encode-parts", fmt.Sprintf("parts %s: the file map written by Builder.PopulateParts reads back as %v (err %v), the parts denote %v", describeParts(ps), all, err, want), nil)
+				}
+				c.count("reader_trees", "also encoded by the builder")
+			}
+		}
 		c.count("reader_trees", map[bool]string{true: "with sub-range or nested parts", false: "whole-blob parts only"}[partial || strings.Contains(describeParts(ps), "bytes(")])
 		c.addCase(fmt.Sprintf("CReads (%s)%%nat (%s)%%nat", coqParts(ps), qlist(reads)), map[string]any{"op": "reads", "parts": describeParts(ps), "total": total}, partial)
 	}
